@@ -145,13 +145,14 @@ def ccd_monitor(ctx):
                 ref = np.zeros((N, M), dtype=complex)
                 ref[:M, :M] = np.diag(ph)
                 bad = None
-                if np.abs(fin - ref).max() > 1e-9 or np.abs(np.abs(ph) - 1).max() > 1e-9:
-                    bad = "after the column sweep the tracked matrix G V is not the embedding times a diagonal of phases"
+                if np.abs(fin - ref).max() > 1e-7 or np.abs(np.abs(ph) - 1).max() > 1e-7:   # accumulated accuracy of Qiskit's UCGate over the sweep: 1.5e-9 seen at n = m = 4
+                    bad = ("after the column sweep the tracked matrix G V is not the embedding times a diagonal of phases "
+                           f"(off by {np.abs(fin - ref).max():.2e}, |phase| off by {np.abs(np.abs(ph) - 1).max():.2e})")
                 else:
                     # G = (circuit^-1 without the diagonal): check G V = J Phi and D^-1 J = J Phi through the returned operator
                     W = Operator(seen["circ"]).data          # = (D G)^-1
                     J = np.eye(N, dtype=complex)[:, :M]
-                    if np.abs(W @ J - seen["v0"]).max() > 1e-8:
+                    if np.abs(W @ J - seen["v0"]).max() > 1e-7:
                         bad = "the returned operator does not map the embedding to the isometry although the sweep contract holds"
                 if bad:
                     ctx.mismatch("C03 contract (ccd): " + bad, {"n": n, "m": m, "family": fam})
